@@ -159,6 +159,7 @@ def _job(job):
     elif kind == 'e2e':
         _e2e(st, job[1])
         _e2e_growing(st)
+        _e2e_prior(st)
     elif kind == 'e2e_task':
         return _e2e_task(job[1])
     return st
@@ -264,6 +265,63 @@ def _e2e_growing(st):
     harness.reset_state()
 
 
+def _e2e_prior(st):
+    """(c4) a prior heuristic with a reference-model JSON: pairs that involve model features are not candidates; the cap and the counter apply to the remaining ones"""
+    import json
+    import os
+    import warnings
+    import pandas as pd
+    from mc import harness
+    from mc.common import scratch_dir, rm_scratch
+    cr = _cr()
+    d = scratch_dir('c07j')
+    try:
+        path = os.path.join(d, 'model.json')
+        with open(path, 'w') as f:
+            json.dump({'desc': {'features': ['f0', 'f1', 'f0,f1']}}, f)
+        cols = ['f0', 'a', 'f1', 'b', 'c', 'label']
+        rows = [[str((r * (i + 2) + r // 3) % 3) for i in range(5)] + [str(r % 2)] for r in range(12)]
+        df = pd.DataFrame(rows, columns=cols)
+        eligible = {frozenset((c, 'label')) for c in ('a', 'b', 'c', 'label')}
+        for cap in (1, 2, 3, 9):
+            harness.reset_state()
+            args = harness.make_args(combination_number_upper_bound=cap, heuristic='surrogate-SGD', target_ranking_only='True', reference_model_JSON=path)
+            tally = Counter()
+            fails = []
+            for b in range(4):
+                with warnings.catch_warnings():
+                    warnings.simplefilter('ignore')
+                    ok, res = safe(cr.compute_batch_ranking, [list(r) for r in rows], set(), args, harness.InlinePool(), list(cols), harness.RecLogger(), harness.NullBar())
+                st.count('evaluations')
+                st.count('transitions')
+                st.count('traces_validated')
+                if not ok:
+                    fails.append(f'batch {b}: exception {res}')
+                    break
+                pairs = {frozenset((a, bb)) for a, bb, _ in res[0].triplet_scores}
+                if not pairs <= eligible:
+                    fails.append(f'batch {b}: pairs with model features evaluated: {[tuple(p_) for p_ in pairs - eligible]}')
+                    break
+                if len(pairs) != min(cap, len(eligible)):
+                    fails.append(f'batch {b}: {len(pairs)} pairs evaluated, cap {cap}, {len(eligible)} eligible candidates')
+                    break
+                for p_ in pairs:
+                    tally[p_] += 1
+                g = Counter()
+                for k_, v_ in cr.GLOBAL_PRIOR_COMB_COUNTS.items():
+                    if v_:
+                        g[frozenset(k_)] += v_
+                if dict(g) != dict(tally):
+                    fails.append(f'batch {b}: reported counts { {tuple(sorted(k_)): v_ for k_, v_ in g.items()} } != pairs actually evaluated { {tuple(sorted(k_)): v_ for k_, v_ in tally.items()} }')
+                    break
+            st.count('states', 4)
+            if fails:
+                st.violation({'kind': 'e2e_prior', 'cap': cap}, '; '.join(fails), {'family': 'e2e_prior', 'fail': fails[0][9:40]})
+    finally:
+        rm_scratch(d)
+        harness.reset_state()
+
+
 def _e2e_task(job):
     """(c2) the complete ranking task on files with a trailing partial batch (> 1024 rows): combination_estimation_counts.json and the copy returned by
     estimate_importances_minibatches must equal the number of batches (including the tail batch) in which each candidate pair was evaluated"""
@@ -336,6 +394,10 @@ def run(ctx):
 
 def eval_case(case):
     """Replay one event history (family inferred from the events' shape) or an e2e configuration."""
+    if case.get('kind') == 'e2e_prior':
+        st = Stats()
+        _e2e_prior(st)
+        return [v['what'] for v in st.violations if v['case']['cap'] == case['cap']]
     if case.get('kind') == 'e2e_growing':
         st = Stats()
         _e2e_growing(st)
